@@ -141,7 +141,27 @@ def run(case, rec):
         kwargs["num_processes"] = 2  # the number of worker processes is not part of the requested model
         rec.count("refined_with_worker_processes")
     label = f"config={cfg} variant={variant}"
-    if case.get("via_tracker") and cfg["width"] is None:
+    if case.get("numpy_modes"):
+        # the mode count as a numpy integer (e.g. taken from an array of settings or from len() of an array shape)
+        kwargs["modes"] = [np.int64, np.int32, np.intp, np.uint8][case["numpy_modes"] % 4](cfg["modes"])
+        rec.count("mode_count_given_as_numpy_integer")
+        label += f" modes given as {type(kwargs['modes']).__name__}"
+    if case.get("mr_between") and cfg["refine"] and not (cfg["modes"] > 0 and cfg["dim"] == 1):
+        # a minimal radius between the thresholding estimate and the fitted radius of the smallest droplet (both read
+        # from an unjudged preview): the request then decides about that droplet - whatever is returned has the class
+        # the request implies
+        pre = common.monitored(rec, "preview:locate_droplets", lambda: (
+            droplets.locate_droplets(ScalarField(grid, data), **{**kwargs, "refine": False}),
+            droplets.locate_droplets(ScalarField(grid, data), **kwargs)))
+        if pre.ok and len(pre.result[0]) and len(pre.result[0]) == len(pre.result[1]):
+            est, fit = pre.result
+            i0 = int(np.argmin([d.radius for d in est]))
+            j0 = int(np.argmin([np.linalg.norm(np.asarray(d.position) - np.asarray(est[i0].position)) for d in fit]))
+            if est[i0].radius != fit[j0].radius:
+                kwargs["minimal_radius"] = float((est[i0].radius + fit[j0].radius) / 2)
+                rec.count("minimal_radius_between_estimate_and_fit")
+                label += f" minimal_radius={kwargs['minimal_radius']!r}"
+    if case.get("via_tracker") and cfg["width"] is None and "minimal_radius" not in kwargs:
         # the same request made through a droplet tracker (the route a simulation takes)
         def through_tracker():
             tr = droplets.DropletTracker(1, threshold=kwargs["threshold"], refine=cfg["refine"], perturbation_modes=cfg["modes"])
@@ -178,6 +198,8 @@ def run(case, rec):
     rec.check(len(dtypes) <= 1, "one-layout", f"result mixes data layouts {sorted(dtypes)}; {label}")
     c2 = common.monitored(rec, "Emulsion.data", lambda: em.data)
     ok = c2.ok and (len(em) == 0 or str(c2.result.dtype.descr) == str(em[0].data.dtype.descr)) and (not c2.ok or len(c2.result) == len(em))
+    if len(em) == 0:
+        ok = True  # a result without droplets has no rows to tabulate (the library refuses to guess a layout then)
     rec.check(ok, "tabular-data",
               f"Emulsion.data {'raised ' + repr(c2.exc) if not c2.ok else 'has dtype ' + str(c2.result.dtype)} "
               f"(members: {sorted(dtypes)}); {label}")
@@ -201,6 +223,10 @@ def run_shard(spec, rec):
         # influence the class of later results (no state may be shared between calls)
         interfere(i, rec)
         case = {"kind": "configs", "config": allc[i], "variant": spec["variant"], "seed": spec["seed"]}
+        if (i * 3 + spec["seed"]) % 5 == 2:
+            case["numpy_modes"] = 1 + (i + spec["seed"]) % 4
+        if allc[i]["refine"] and (i * 11 + spec["seed"]) % 6 == 1:
+            case["mr_between"] = True
         if allc[i]["refine"] and (i * 7 + spec["seed"]) % 16 == 3:
             case["workers"] = True
         elif allc[i]["width"] is None and (i * 5 + spec["seed"]) % 4 == 1:
